@@ -14,6 +14,7 @@ import (
 	"os"
 
 	"github.com/golang/protobuf/proto"
+	"github.com/itchio/savior"
 	"github.com/itchio/savior/seeksource"
 	"github.com/itchio/wharf/pwr"
 	"github.com/itchio/wharf/wire"
@@ -48,11 +49,42 @@ type wireSession struct {
 	Events  []wireEvent `json:"events"`
 	Desc    string      `json:"desc"`
 	Bytes   int         `json:"bytes"`
+	Gran    int64       `json:"gran"`    // > 1: the source under a resumed reader restarts only at multiples of this
 	Rewound int         `json:"rewound"` // > 0: not a new reader but one that had read this many messages and was rewound with Resume(cp)
 }
 
-func openReader(stream []byte) (*wire.ReadContext, error) {
-	src := seeksource.FromBytes(stream)
+// coarseSource: a seek source that can only restart at multiples of gran (a patch served by something that resumes on
+// block boundaries, or only from the start). savior.Source's contract: Resume RETURNS the offset it really resumed at,
+// which may be earlier than the checkpoint's; the reader has to discard the difference.
+type coarseSource struct {
+	savior.SeekSource
+	gran int64
+}
+
+func (c *coarseSource) Resume(cp *savior.SourceCheckpoint) (int64, error) {
+	if cp == nil {
+		return c.SeekSource.Resume(nil)
+	}
+	aligned := cp.Offset / c.gran * c.gran
+	if aligned == 0 {
+		return c.SeekSource.Resume(nil)
+	}
+	return c.SeekSource.Resume(&savior.SourceCheckpoint{Offset: aligned})
+}
+
+func (c *coarseSource) Section(start int64, size int64) (savior.SeekSource, error) {
+	s, err := c.SeekSource.Section(start, size)
+	if err != nil {
+		return nil, err
+	}
+	return &coarseSource{SeekSource: s, gran: c.gran}, nil
+}
+
+func openReader(stream []byte, gran int64) (*wire.ReadContext, error) {
+	var src savior.SeekSource = seeksource.FromBytes(stream)
+	if gran > 1 {
+		src = &coarseSource{SeekSource: src, gran: gran}
+	}
 	if _, err := src.Resume(nil); err != nil {
 		return nil, err
 	}
@@ -201,6 +233,14 @@ func cmdC13(args []string) error {
 			if companion != nil && i%2 == 0 {
 				note(companion.WriteMessage(&pwr.SyncOp{Type: pwr.SyncOp_DATA, FileIndex: int64(i), Data: bytes.Repeat([]byte{0xc0}, 1+i*37)}))
 			}
+			if s == 0 && rng.Intn(2) == 0 {
+				// a message that marshals to ZERO bytes (every field at its default) - any all-default proto3 message
+				// does, e.g. the SyncHeader of file 0 in every patch
+				mlens = append(mlens, 0)
+				shas = append(shas, "EMPTY")
+				note(wc.WriteMessage(&pwr.SyncOp{}))
+				continue
+			}
 			var data []byte
 			switch rng.Intn(3) {
 			case 0:
@@ -229,7 +269,7 @@ func cmdC13(args []string) error {
 			if mlens == nil {
 				mlens = []int{}
 			}
-			w.emit(&wireSession{Case: k, Algo: cs.a.String(), Q: cs.q, MLens: mlens, Start: 0, Desc: desc + " (writer side)", Bytes: stream.Len(),
+			w.emit(&wireSession{Case: k, Algo: cs.a.String(), Q: cs.q, MLens: mlens, Start: 0, Desc: desc + " (writer side)", Bytes: stream.Len(), Gran: 1,
 				Events: []wireEvent{{E: "err", Msg: "writing: " + werr.Error(), Off: -1, Emit: -1}}})
 			continue
 		}
@@ -243,7 +283,7 @@ func cmdC13(args []string) error {
 		// asked to save on the way (WantSave before the last of them, or after it when lateWant) and nobody pops; then
 		// the SAME reader is rewound with Resume(cp) - what a patcher object that is resumed a second time does.
 		session := func(start int, cp *wire.MessageReaderCheckpoint, wantEvery int, collect bool, rewindAfter int, lateWant bool) (rse *wireSession, rcps []*wire.MessageReaderCheckpoint, rat []int) {
-			se := &wireSession{Case: k, Algo: cs.a.String(), Q: cs.q, MLens: mlens, Start: start, Desc: desc, Bytes: len(sbytes), Events: []wireEvent{}}
+			se := &wireSession{Case: k, Algo: cs.a.String(), Q: cs.q, MLens: mlens, Start: start, Desc: desc, Bytes: len(sbytes), Events: []wireEvent{}, Gran: 1}
 			if rewindAfter > 0 {
 				se.Desc = fmt.Sprintf("%s (same reader rewound after %d messages with a save pending, lateWant=%v)", desc, rewindAfter, lateWant)
 				se.Rewound = rewindAfter
@@ -260,7 +300,15 @@ func cmdC13(args []string) error {
 					rse, rcps, rat = se, cps, at
 				}
 			}()
-			rc, err := openReader(sbytes)
+			// a resumed reader may sit on a source that restarts earlier than the checkpoint says
+			gran := int64(1)
+			if cp != nil {
+				gran = []int64{1, 1, 4096, 1 << 30}[(start+k)%4]
+			}
+			se.Gran = gran
+			reuseDest := (start+k)%2 == 0
+			dest := &pwr.SyncOp{Type: pwr.SyncOp_DATA, FileIndex: 77, Data: []byte("left over from an earlier read")}
+			rc, err := openReader(sbytes, gran)
 			if err != nil {
 				return fail(err)
 			}
@@ -323,7 +371,11 @@ func cmdC13(args []string) error {
 					}
 					se.Events = append(se.Events, pe)
 				}
+				// (callers keep ONE message object and read every message into it; half of the sessions do the same)
 				op := &pwr.SyncOp{}
+				if reuseDest {
+					op = dest
+				}
 				err := rc.ReadMessage(op)
 				if err != nil {
 					if errors.Cause(err) == io.EOF {
@@ -334,6 +386,9 @@ func cmdC13(args []string) error {
 				}
 				idx++
 				ok := int(op.FileIndex) == idx-1 && idx-1 < len(shas) && sha(op.Data) == shas[idx-1] && op.Type == pwr.SyncOp_DATA
+				if idx-1 < len(shas) && shas[idx-1] == "EMPTY" {
+					ok = op.Type == pwr.SyncOp_BLOCK_RANGE && op.FileIndex == 0 && op.BlockIndex == 0 && op.BlockSpan == 0 && len(op.Data) == 0
+				}
 				ev := wireEvent{E: "msg", Idx: idx, Ok: ok, Off: -1, Emit: -1}
 				c := rc.PopCheckpoint()
 				pe := wireEvent{E: "pop", Idx: idx, Off: -1, SrcOff: -1, Emit: -1}
